@@ -157,6 +157,37 @@ type inst struct {
 	sumT     *big.Int   // Σ_b T_b (Dec mantissa) over the same blocks
 	nsync    int64
 	claimed  []*big.Int
+	// per user (C09_integral on the real claims): the harness's own time integral
+	flo      [][]*big.Int // [denom][user] Σ_b ⌊rate·secs_b·P·s_u(b) / T_b⌋   (10^-36 units)
+	slack    []*big.Int   // [user] Σ_b ((P+2)·s_u(b) + P)
+	nsyncU   []int64      // [user] synchronisations
+	claimedU [][]*big.Int // [denom][user]
+	curS     []*big.Int   // [user] shares observed before this block's accumulation
+}
+
+func (in *inst) initUsers() {
+	for range in.rates {
+		var f, cl []*big.Int
+		for u := 0; u < nUsers; u++ {
+			f = append(f, big.NewInt(0))
+			cl = append(cl, big.NewInt(0))
+		}
+		in.flo = append(in.flo, f)
+		in.claimedU = append(in.claimedU, cl)
+	}
+	for u := 0; u < nUsers; u++ {
+		in.slack = append(in.slack, big.NewInt(0))
+	}
+	in.nsyncU = make([]int64, nUsers)
+	in.curS = make([]*big.Int, nUsers)
+}
+
+// integralCase: C09_integral evaluated on the real synchronised claim of user u
+func (w *world) integralCase(out *c.Out, ctx sdk.Context, in *inst, tag, what string, u int) {
+	for j, rc := range in.rates {
+		gained := new(big.Int).Add(w.synced(ctx, in, w.users[u]).AmountOf(rc.Denom).BigInt(), in.claimedU[j][u])
+		out.Case("", "c09.integral", tag+in.src+":"+what, fmt.Sprint(u), fmt.Sprint(in.nsyncU[u]), gained.String(), in.flo[j][u].String(), in.slack[u].String())
+	}
 }
 
 // claimType: the claim object the source credits (hard supply and hard borrow share one)
@@ -565,6 +596,7 @@ func (w *world) seq(out *c.Out, seq int, r *c.Rng) {
 			params.EarnRewardPeriods = itypes.MultiRewardPeriods{mp}
 		}
 		in.sumT = big.NewInt(0)
+		in.initUsers()
 		for range in.rates {
 			in.emission = append(in.emission, big.NewInt(0))
 			in.claimed = append(in.claimed, big.NewInt(0))
@@ -622,8 +654,10 @@ func (w *world) seq(out *c.Out, seq int, r *c.Rng) {
 			pres[k] = pre{pt, f, w.total(ctx, in), g}
 			// Σ user shares = total source shares: the premise of the no-over-distribution theorem
 			var ss []string
-			for _, u := range w.users {
-				ss = append(ss, mant(w.shares(ctx, in, u)))
+			for ui, u := range w.users {
+				sh := w.shares(ctx, in, u)
+				in.curS[ui] = sh.BigInt()
+				ss = append(ss, mant(sh))
 			}
 			if in.src == "deleg" {
 				out.Case("", "c09.sumle", tag+in.src, mant(pres[k].T), join(ss))
@@ -661,11 +695,20 @@ func (w *world) seq(out *c.Out, seq int, r *c.Rng) {
 			accrues := pr.T.IsPositive() && secs > 0
 			if accrues {
 				in.sumT.Add(in.sumT, pr.T.BigInt())
+				for u := 0; u < nUsers; u++ {
+					sl := new(big.Int).Mul(new(big.Int).Add(P, big.NewInt(2)), in.curS[u])
+					in.slack[u].Add(in.slack[u], sl.Add(sl, P))
+				}
 			}
 			for j, rc := range in.rates {
 				rm := sdk.NewDecFromInt(rc.Amount)
 				if accrues {
 					in.emission[j].Add(in.emission[j], new(big.Int).Mul(rm.BigInt(), big.NewInt(secs)))
+					for u := 0; u < nUsers; u++ {
+						x := new(big.Int).Mul(rm.BigInt(), big.NewInt(secs))
+						x.Mul(x, P).Mul(x, in.curS[u])
+						in.flo[j][u].Add(in.flo[j][u], x.Quo(x, pr.T.BigInt()))
+					}
 				}
 				sig := ""
 				if j == 0 {
@@ -692,6 +735,9 @@ func (w *world) seq(out *c.Out, seq int, r *c.Rng) {
 		for _, in := range cfg.insts {
 			if in.src == "usdx" {
 				in.nsync += nUsers // cdp.BeginBlocker may synchronise the claims of risky CDPs
+				for u := range in.nsyncU {
+					in.nsyncU[u]++
+				}
 			}
 		}
 
@@ -706,11 +752,11 @@ func (w *world) seq(out *c.Out, seq int, r *c.Rng) {
 			prevUser = u
 			addr := w.users[u]
 			kind := c.Pick(r, []string{"sdep", "sdep", "swd", "swd", "hdep", "hdep", "hwd", "hwd", "hbor", "hbor", "hrep", "hrep",
-				"ccreate", "cdraw", "cdraw", "crepay", "crepay", "cdep", "cwd", "ddel", "ddel", "dund", "dund", "edep", "edep", "ewd", "ewd",
+				"hrep3", "hrep3", "cdep3", "ccreate", "cdraw", "cdraw", "crepay", "crepay", "cdep", "cwd", "ddel", "ddel", "dund", "dund", "edep", "edep", "ewd", "ewd",
 				"claim", "claim", "claim", "claim", "claim", "claim"})
 			if r.Chance(85) { // mostly operations that can succeed in the current state
 				for try := 0; try < 8 && !w.feasible(ctx, kind, addr); try++ {
-					kind = c.Pick(r, []string{"sdep", "swd", "hdep", "hwd", "hbor", "hrep", "ccreate", "cdraw", "crepay", "cdep", "cwd", "ddel", "dund", "edep", "ewd", "claim"})
+					kind = c.Pick(r, []string{"sdep", "swd", "hdep", "hwd", "hbor", "hrep", "hrep3", "cdep3", "ccreate", "cdraw", "crepay", "cdep", "cwd", "ddel", "dund", "edep", "ewd", "claim"})
 				}
 			}
 			if kind == "claim" {
@@ -731,7 +777,7 @@ func (w *world) seq(out *c.Out, seq int, r *c.Rng) {
 			desc := ""
 			cls, err := kapp.Exec(ctx, func(cx sdk.Context) error {
 				var e error
-				desc, e = w.sourceOp(cx, r, kind, addr, ms)
+				desc, e = w.sourceOp(cx, r, kind, u, ms)
 				return e
 			})
 			if cls == kapp.Panic {
@@ -744,6 +790,9 @@ func (w *world) seq(out *c.Out, seq int, r *c.Rng) {
 				post := w.snapshot(ctx, in)
 				if cls == kapp.OK {
 					in.nsync++
+					in.nsyncU[u]++
+					// the position owner's claim against the harness's own time integral
+					w.integralCase(out, ctx, in, tag, kind, u)
 				}
 				for j := range in.rates {
 					sig := ""
@@ -761,6 +810,9 @@ func (w *world) seq(out *c.Out, seq int, r *c.Rng) {
 
 	// ---- end of the sequence: synchronised claims and the no-over-distribution bound on the real claims
 	for _, in := range cfg.insts {
+		for u := 0; u < nUsers; u++ {
+			w.integralCase(out, ctx, in, tag, "end", u)
+		}
 		sn := w.snapshot(ctx, in)
 		for j, rc := range in.rates {
 			var rs []string
@@ -822,13 +874,13 @@ func (w *world) feasible(ctx sdk.Context, kind string, addr sdk.AccAddress) bool
 	case "hwd", "hbor":
 		_, ok := hk.GetDeposit(ctx, addr)
 		return ok
-	case "hrep":
+	case "hrep", "hrep3":
 		_, ok := hk.GetBorrow(ctx, addr)
 		return ok
 	case "ccreate":
 		_, ok := w.tApp.GetCDPKeeper().GetCdpByOwnerAndCollateralType(ctx, addr, cdpType)
 		return !ok
-	case "cdraw", "crepay", "cdep", "cwd":
+	case "cdraw", "crepay", "cdep", "cwd", "cdep3":
 		_, ok := w.tApp.GetCDPKeeper().GetCdpByOwnerAndCollateralType(ctx, addr, cdpType)
 		return ok
 	case "dund":
@@ -842,7 +894,10 @@ func (w *world) feasible(ctx sdk.Context, kind string, addr sdk.AccAddress) bool
 	return true
 }
 
-func (w *world) sourceOp(ctx sdk.Context, r *c.Rng, kind string, addr sdk.AccAddress, ms msgServers) (string, error) {
+func (w *world) sourceOp(ctx sdk.Context, r *c.Rng, kind string, u int, ms msgServers) (string, error) {
+	addr := w.users[u] // the position owner
+	// the acting account of a third-party operation: another user (with or without a position of its own)
+	actor := w.users[(u+1+r.Intn(nUsers-1))%nUsers]
 	swapMsg, hardMsg := ms.swap, ms.hard
 	sk := w.tApp.GetSwapKeeper()
 	hk := w.tApp.GetHardKeeper()
@@ -998,7 +1053,16 @@ func (w *world) sourceOp(ctx sdk.Context, r *c.Rng, kind string, addr sdk.AccAdd
 		}
 		_, err := ms.earn.Withdraw(sdk.WrapSDKContext(ctx), earntypes.NewMsgWithdraw(addr.String(), sdk.NewCoin("usdx", x), earntypes.STRATEGY_TYPE_HARD))
 		return x.String(), err
-	default: // hrep
+	case "cdep3": // a third party adds collateral to the owner's CDP
+		x := amt()
+		m := cdptypes.NewMsgDeposit(addr, actor, sdk.NewInt64Coin("busd", x), cdpType)
+		_, err := ms.cdp.Deposit(sdk.WrapSDKContext(ctx), &m)
+		return fmt.Sprint(x), err
+	default: // hrep, hrep3 (a third party repays the owner's borrow, partially or fully)
+		sender := addr
+		if kind == "hrep3" {
+			sender = actor
+		}
 		x := sdkmath.NewInt(amt())
 		if b, found := hk.GetBorrow(ctx, addr); found {
 			have := b.Amount.AmountOf("usdx")
@@ -1013,7 +1077,7 @@ func (w *world) sourceOp(ctx sdk.Context, r *c.Rng, kind string, addr sdk.AccAdd
 			x = sdk.OneInt()
 		}
 		cs := sdk.NewCoins(sdk.NewCoin("usdx", x))
-		_, err := hardMsg.Repay(sdk.WrapSDKContext(ctx), &hardtypes.MsgRepay{Sender: addr.String(), Owner: addr.String(), Amount: cs})
+		_, err := hardMsg.Repay(sdk.WrapSDKContext(ctx), &hardtypes.MsgRepay{Sender: sender.String(), Owner: addr.String(), Amount: cs})
 		return cs.String(), err
 	}
 }
@@ -1061,10 +1125,12 @@ func (w *world) doClaim(out *c.Out, ctx sdk.Context, cfg *seqCfg, r *c.Rng, tag 
 	own := sharesOwnDenom(cfg, in, denom)
 	if cls == kapp.OK {
 		in.claimed[j].Add(in.claimed[j], accrued.BigInt())
+		in.claimedU[j][u].Add(in.claimedU[j][u], accrued.BigInt())
 		// a hard claim synchronises supply and borrow of the owner
 		for _, o := range cfg.insts {
 			if claimType(o.src) == claimType(in.src) {
 				o.nsync++
+				o.nsyncU[u]++
 			}
 		}
 	}
